@@ -48,11 +48,14 @@ CONFIGS = [(1, False), (3, False), (3, True)]
 
 
 def _worker(case):
+    import gc
     try:
         return ops.run_case(case)
     except BaseException as exc:  # noqa
         return {'case': case, 'status': 'infra', 'detail': ''.join(traceback.format_exception_only(type(exc), exc))[-800:]
                 + traceback.format_exc()[-1500:], 'lean': [], 'calls': {}}
+    finally:
+        gc.collect()   # finalise the coroutines of an aborted run now, not during the next case
 
 
 def make_cases(ctx):
@@ -69,9 +72,16 @@ def make_cases(ctx):
     # one directed input per OPEN known finding, and the regression inputs of fixed defects
     for name in sorted(ops.DIRECTED):
         cases.append({'op': name, 'kind': ops.DIRECTED[name]['kinds'][0], 'm': 3, 'no_prss': name.startswith('x_fixed'), 'seed': 1})
+    # every named variant of the multi-variant operations once (m = 3, alternating PRSS off/on)
+    k = 0
+    for name in sorted(ops.VARIANTS):
+        for var in ops.VARIANTS[name]:
+            for kind in ops.OPS[name]['kinds'][:2]:
+                k += 1
+                cases.append({'op': name, 'kind': kind, 'm': 3, 'no_prss': k % 2 == 0, 'seed': rng.randrange(1 << 30), 'force': var})
     # 2. random extra cases, weighted towards m = 3
     names = sorted(ops.OPS)
-    for _ in range(ctx.scale(300, 6000)):
+    for _ in range(ctx.scale(220, 6000)):
         name = rng.choice(names)
         kind = rng.choice(ops.OPS[name]['kinds'])
         m, np_ = rng.choice(CONFIGS + [(3, False), (3, True)])
@@ -79,9 +89,21 @@ def make_cases(ctx):
     return cases
 
 
+def run_driver(lines):
+    """the lean build directory is shared with concurrently building workers: retry when an .olean is missing"""
+    import time
+    for attempt in range(4):
+        out = common.LeanDriver('Arrays').run(lines)
+        if not isinstance(out, common.DriverFailure) or 'does not exist' not in ' '.join(out[-3:]):
+            return out
+        time.sleep(20)
+        common.lean_build(LEAN_MODULES)
+    return out
+
+
 def run_cases(ctx, cases, tag='run'):
     nproc = min(16, os.cpu_count() or 4)
-    with mp.get_context('fork').Pool(nproc, maxtasksperchild=200) as pool:
+    with mp.get_context('fork').Pool(nproc, maxtasksperchild=10) as pool:
         results = pool.map(_worker, cases, chunksize=4)
     lean_req, lean_impl, lean_meta = [], [], []
     for res in results:
@@ -113,7 +135,7 @@ def run_cases(ctx, cases, tag='run'):
             lean_impl.append(impl)
             lean_meta.append(case)
     if lean_req:
-        model = common.LeanDriver('Arrays').run(lean_req)
+        model = run_driver(lean_req)
         ctx.compare('array shapes / index maps (runtime.py + NumPy vs MpycV.Arr)', lean_impl, model,
                     [{'request': r, 'case': c} for r, c in zip(lean_req, lean_meta)])
     return results
@@ -132,7 +154,7 @@ def run(ctx):
         ctx.count('not-covered:' + k)
     # pure model correspondences against NumPy (no secure computation involved)
     req, impl = ops.numpy_model_lines(ctx.subrng('npmodel'), ctx.scale(400, 4000))
-    model = common.LeanDriver('Arrays').run(req)
+    model = run_driver(req)
     ctx.compare('NumPy vs MpycV.Arr (shapes, gather maps)', impl, model, req)
     ctx.count('numpy-model-lines', len(req))
 
